@@ -373,7 +373,7 @@ func editLabel(es []edit) string {
 // keyEntries: where a single-key keyset is pushed through. Parsing of the key is shared by all entry
 // points (keysetToEntries); a proto entry, both clear-text readers and one encrypted reader are used, and
 // the no-secret readers for public keys.
-var keyEntries = []string{"proto-cleartext", "clear-bin", "clear-json", "enc-bin", "encctx-json", "proto-nosecrets", "nosecrets-bin", "nosecrets-json"}
+var keyEntries = []string{"proto-cleartext", "clear-bin", "clear-json", "enc-bin", "encctx-json", "mem-enc", "proto-nosecrets", "nosecrets-bin", "nosecrets-json", "mem-nosecrets"}
 
 func runKeys(plan string, w *vt.Writer, n0 int) {
 	parallel(plan, n0, func(n int, line []byte) {
